@@ -26,6 +26,7 @@ def run(ctx, rep):
     count(prog, rep)
     step_shape(prog, rep)
     parameters(prog, rep)
+    centred(prog, rep)
 
 
 def _delta(line):
@@ -217,3 +218,74 @@ def parameters(prog, rep):
                 comps = r[2]
             ok = comps is not None and comps[keep] == ("field", me, keep) and comps[1 - keep] == ("const", 0)
         rep.check(ok, "R17.4", "Point::" + nm, "Point::%s must keep the %s component and zero the other" % (nm, "xy"[keep]), at=cands[0].span if cands else "", fn=cands[0].path if cands else "")
+
+
+PAR = LINE + "thick_points::ParallelsIterator"
+NONE_OFFSET = "embedded_graphics::primitives::common::StrokeOffset::None"
+
+
+def _callees(prog, f):
+    out = []
+    for blk in f.body["blocks"]:
+        t = blk["t"]
+        if t and t["k"] == "call" and "indirect" not in t["f"]:
+            r = t["f"].get("resolved") or t["f"]
+            out += [g for g in prog.by_path.get(r.get("path", ""), []) if g.body and g.kind in ("fn", "assoc_fn")]
+    out += [g for g in prog.fns.values() if g.body and g.parent_fn == f.id]
+    return out
+
+
+def centred(prog, rep):
+    """R17.5: the stroke of a styled Line is centred on the line whatever the style says — in everything reachable from the
+    line's own styled code (src/primitives/line/styled.rs) the stroke offset that reaches ParallelsIterator::new and
+    Line::extents is the constant StrokeOffset::None.  (A one-sided stroke is w - 1 pixels away from the ideal line, more
+    than the w/2 + 2.5 of the property for w >= 8.)"""
+    from mirq.canon import Canon
+    C = Canon(prog)
+    roots = [f for f in prog.fns.values() if f.body and f.kind in ("fn", "assoc_fn") and (f.span or "").startswith("src/primitives/line/styled.rs") and "::tests::" not in f.id]
+    rep.floor("R17.5", "functions of the line's styled code", len(roots), 4)
+    reach, todo = {}, list(roots)
+    while todo:
+        f = todo.pop()
+        if f.id in reach or "::tests::" in f.id:
+            continue
+        reach[f.id] = f
+        todo += _callees(prog, f)
+
+    def sinks(f):
+        out = []
+        for nm, pred in (("new", lambda p: p == PAR + "::new"), ("extents", lambda p: p == LN + "::extents")):
+            for st in C.sites(f, nm):
+                if pred((st.t["f"].get("resolved") or st.t["f"]).get("path", "")):
+                    out.append((st, st.args[-1]))
+        return out
+
+    bad, n = [], [0]
+
+    def settle(f, arg, trail, depth=0):
+        """is `arg` (a tree over f's parameters) the constant None on every way into f from the styled code?"""
+        a = arg
+        while a[0] in ("ref", "deref", "cast"):
+            a = a[1]
+        if a == ("agg", NONE_OFFSET, ()) or a == ("const", NONE_OFFSET):
+            return
+        if a[0] == "param" and depth < 4 and f not in roots:
+            callers = 0
+            for g in reach.values():
+                for st in C.sites(g, f.name):
+                    if (st.t["f"].get("resolved") or st.t["f"]).get("path", "") == f.path and a[1] - 1 < len(st.args):
+                        callers += 1
+                        settle(g, st.args[a[1] - 1], trail + [g.path.split("::")[-2] + "::" + g.name], depth + 1)
+            if callers:
+                return
+        bad.append("%s: the stroke offset is %s" % (" <- ".join(trail), show(a, maxd=4)))
+
+    first = None
+    for f in sorted(reach.values(), key=lambda f: f.id):
+        for st, arg in sinks(f):
+            n[0] += 1
+            first = first or f
+            settle(f, arg, ["%s in %s::%s" % (st.t["f"].get("name"), f.path.split("::")[-2], f.name)])
+    rep.floor("R17.5", "ParallelsIterator::new / Line::extents call sites reachable from the line's styled code", n[0], 3)
+    rep.check(not bad, "R17.5", "line:centred-stroke", "a styled Line must build its stroke with StrokeOffset::None (centred on the line, independent of the style's stroke alignment): %s" % "; ".join(bad[:3]),
+              at=(first.span if first else ""), fn=(first.path if first else ""), detail={"reachable_functions": len(reach), "sites": n[0]})
